@@ -17,6 +17,7 @@ def strip_meta(g):
     g = copy.deepcopy(g)
     if g["type"] == "NIRGraph":
         g["meta"] = None
+        g.pop("share", None)      # metadata is re-assigned per name below, so the names must be separate objects
         g["nodes"] = [[n, strip_meta(r)] for n, r in g["nodes"]]
     else:
         g["kwargs"] = [kv for kv in g["kwargs"] if kv[0] != "metadata"]
@@ -117,7 +118,9 @@ def run(ctx):
                     continue
                 metas[target]["trained_with"] = "adam"
                 after = meta_of(gg)
-                leaked = [k for k in after if k != target and not compare.num_equal(before[k], after[k])]
+                # (a node object registered under two names has, of course, one metadata dictionary)
+                leaked = [k for k in after if k != target and after[k] is not metas[target]
+                          and not compare.num_equal(before[k], after[k])]
                 later = meta_of(nir.read(p0))
                 leaked_later = [k for k in later if not compare.num_equal(later[k], {})]
                 ctx.count("inplace_" + label)
